@@ -24,7 +24,8 @@ class AstToSqliteSqlVisitor(AstToSqlVisitor):
 
     def visit_DateTime(self, node: ast.DateTime) -> str:
         """:meta private:"""
-        return f"DATETIME('{node.val}')"
+        # The 'T' and 'Z' designators are case insensitive in OData, not in SQLite:
+        return f"DATETIME('{node.val.upper()}')"
 
     def sqlfunc_indexof(self, *args: ast._Node) -> str:
         """:meta private:"""
